@@ -424,7 +424,7 @@ structure ShowCfg where
   trePair : Str
   treSep : Str
   treClose : Str
-  rngOpen : Str     -- Range_Show: "<'Range' At 0x%p [", "%i" per value, ", ", "]>"
+  rngOpen : Str     -- Range_Show: "<'Range' At 0x%p [", "%li" per value (fix 78c2117; before it "%i"), ", ", "]>"
   rngItem : Str
   rngSep : Str
   rngClose : Str
@@ -468,7 +468,7 @@ def showPairs (shw : Obj → Out → Out × Outcome) (pair sep : Str) : List (Ob
     andThen (fun o => (printToWith cfg prim shw pair [k, v] o).pair)
       (andThen (fun o => (printToWith cfg prim shw sep [] o).pair) (showPairs shw pair sep (q :: r))) o
 
-/-- Range_Show: `for each value: print_to(out, pos, "%i", curr); if (not last) print_to(out, pos, sep)` -/
+/-- Range_Show: `for each value: print_to(out, pos, "%li", curr); if (not last) print_to(out, pos, sep)` (`item` is read from the source) -/
 def showInts (shw : Obj → Out → Out × Outcome) (item sep : Str) : List Int → Out → Out × Outcome
   | [], o => (o, .ok)
   | [n], o => (printToWith cfg prim shw item [.int n] o).pair
@@ -598,6 +598,19 @@ def nspecs : List Seg → Nat
   | .spec _ _ :: r => nspecs r + 1
   | _ :: r => nspecs r
 
+/-- **exactly the territory of KF-C14-alias, relative to the format**: walking the specifications with the arguments they fetch (the k-th
+    specification takes the k-th argument), no `%s` fetches the destination itself and no `%$` fetches an object whose `show` (within `d`
+    levels) reaches it.  The destination under `%p` (its address is printed), under an integer / floating conversion (ClassError: a String
+    has no C_Int / C_Float) and as a surplus argument no specification fetches is harmless and NOT excluded.  `plainArgs d args` implies
+    `plainFor d args segs k` for every format. -/
+def plainFor (d : Nat) (args : List Obj) : List Seg → Nat → Bool
+  | [], _ => true
+  | .spec _ c :: r, k =>
+    (match args[k]? with
+     | some a => if c = '$' then plainD d a else if c = 's' then !a.isSink else true
+     | none => true) && plainFor d args r (k + 1)
+  | _ :: r, k => plainFor d args r k
+
 section reference
 variable (cfg : Cfg) (prim : Prim) (shw : Obj → Out → Out × Outcome)
 
@@ -677,5 +690,47 @@ def inGrammar (conv : Str) (fmt : Str) : Bool :=
   match parseFmt conv fmt with
   | none => false
   | some segs => segs.all Seg.printfOK
+
+/-! ## what libc is entitled to: the vararg contract of ONE `v*printf` call
+
+`print_to_with` passes exactly ONE vararg per specification (`c_int(a)`: an `int64_t`, `c_float(a)`: a `double`, `c_str(a)`: a `char*`,
+the object pointer).  The trusted parameter `Libc` (a FUNCTION of the fragment and that one value) describes a real C library only on calls
+whose fragment makes libc read exactly one vararg of that class: the printf grammar `specOK` (flags, width, precision, the length modifiers of
+`lensFor`).  Outside it — `%*d` and `%.*f` (libc reads TWO varargs: the width comes from the one that was passed, the value from whatever the
+next register / stack slot holds), `%Lf` (a `long double` where a `double` was passed), `%ls` — the text is not a function of the arguments
+of `print_to` at all: known finding KF-C14-star-width. -/
+
+/-- the class of C value conversion `c` makes libc read -/
+def valFits (c : Char) : PVal → Bool
+  | .i64 _ => c ∈ intConvs || c = 'c'
+  | .dbl _ => c ∈ fltConvs
+  | .cstr _ => c = 's'
+  | .ptr => c = 'p'
+  | .none => false
+
+/-- the call is inside libc's contract: a fragment without a vararg (a literal run free of `%`, or `%%`), or ONE specification of the
+    printf grammar with the one vararg of the class it reads -/
+def Call.inContract (c : Call) : Bool :=
+  match c.val with
+  | .none => c.frag = ['%', '%'] || c.frag.all (· ≠ '%')
+  | v =>
+    match c.frag with
+    | '%' :: r =>
+      match r.getLast? with
+      | some conv => specOK r.dropLast conv && valFits conv v
+      | none => false
+    | _ => false
+
+/-! ## what is outside the statements: the String's C value when the start position lies beyond its end, and `fmt_buf` on the throw paths -/
+
+/-- the C string a heap String holds after `String_Format_To(s, start, …)` wrote `t`: `realloc` keeps the bytes `[0, strlen]` including the
+    terminator; when `start > strlen` the text lands behind it (the bytes in between are indeterminate) and `c_str(s)` is still the old value —
+    known finding KF-C14-start-beyond-end (the statements about a String sink carry `start ≤ length`) -/
+def cValueAfter (v : Str) (start : Nat) (t : Str) : Str := if start ≤ v.length then v.take start ++ t else v
+
+/-- bytes of `fmt_buf` (`malloc(strlen(fmt)+1)` at the top of `print_to_with`) still allocated when the call is over: `free(fmt_buf)` stands
+    only before `return pos;` — every `throw` (and every exception out of `c_int` / `c_float` / `c_str` / `show_to` / `format_to`) leaves by
+    `longjmp` without it: known finding KF-C14-fmtbuf-leak -/
+def Result.leaked (r : Result) (fmt : Str) : Nat := if r.oc = .ok then 0 else fmt.length + 1
 
 end Cello.Fmt
